@@ -100,6 +100,12 @@ fn judge_c(entry: &str, nu: f64, kind: Kind, level: f64, c: f64, quad_sample: bo
         "nu in switch band" => l.max("coverage_error@switch-band", dev),
         _ => l.max("coverage_error@normal-branch", dev),
     }
+    let tail = target.min(1.0 - target);
+    if tail < 5e-5 && nu < T_UNTIL {
+        // reported, not judged: the error relative to the tail probability (the tolerance is the absolute one)
+        let sf = sci_common::dist::t_cdf2(c.abs(), nu).1;
+        l.max_with("far_tail_relative_error(reported)", (sf / tail - 1.0).abs(), || json!({"nu": nu, "kind": kind.name(), "level": level, "implied_c": c, "tail_target": tail, "t_sf(|c|)": sf}));
+    }
     l.max_with("coverage_error_over_tolerance", dev / tol, || json!({"nu": nu, "kind": kind.name(), "level": level, "implied_c": c, "dev": dev, "tol": tol, "quantile": which}));
     if !ok {
         l.violation(
@@ -317,6 +323,21 @@ pub fn run(run: &Arc<Run>) {
     ns.sort();
     ns.dedup();
     run.par(ns.len() as u64, |i, l| judge_arith(ns[ns.len() - 1 - i as usize], &levels, l));
+    // far-tail levels (1 - 2^-j down to 2^-47, 1 - 1e-5 .. 1 - 1e-10, 1e-4 .. 1e-12): all valid confidences; small
+    // dof are where a heavy tail makes an unpolished or clamped quantile wrong by orders of magnitude
+    let far = crate::props::c10::far_tail_levels();
+    let mut far_ns: Vec<usize> = (2..=run.cfg.by(40usize, 400)).collect();
+    far_ns.extend([101usize, 1_000, 5_001, 30_000, 75_000, 99_999, 150_000]);
+    run.par(far_ns.len() as u64, |i, l| {
+        l.count("far-tail levels judged (probe samples)");
+        judge_arith(far_ns[i as usize], &far, l)
+    });
+    run.par(run.cfg.by(40u64, 400), |i, l| {
+        let mut r = Rng::from(&[seed, 0xc06fa, i]);
+        judge_unpaired(r.range(2, 30) as usize, r.range(2, 300) as usize, 0, r.range(-4, 4) as i32, &far, l);
+        let n = r.range(4, 2000) as usize;
+        judge_proportion(n, r.range(2, n as i64 - 2) as usize, &far, l);
+    });
     // pinned probes: (dof, p) pairs at which the dependency's inverse t CDF is known to miss the
     // quantile altogether (found by the dense sweep / calibration on the pinned dependency versions).
     // They are the inputs on which a weakened refinement of the quantile shows.
@@ -383,5 +404,6 @@ pub fn run(run: &Arc<Run>) {
         "pinned needle probes (dof, p) judged",
         "unpaired: combined size > 100 000 with a small effective dof",
         "order-independence groups judged",
+        "far-tail levels judged (probe samples)",
     ]);
 }
